@@ -88,6 +88,13 @@ func (t *brokerPublishTransactionBase) resend(pktx interface{}) error {
 	t.log.Debug("Resend.")
 	switch pkt := pktx.(type) {
 	case snPkts.Packet:
+		// A sleeping client cannot acknowledge anything and the packet
+		// is still waiting for it in the buffer: retransmissions would
+		// only be buffered too and the transaction would fail before
+		// the client wakes up.
+		if t.handler.state.Get() == util.StateAsleep {
+			return transactions.ErrRetryPostponed
+		}
 		// Set DUP if applicable.
 		if dupPkt, ok := pkt.(snPkts.PacketWithDUP); ok {
 			dupPkt.SetDUP(true)
